@@ -416,3 +416,41 @@ def dispatch_table(expr, selector):
             out["<else>"] = u(expr.args[1]) if len(expr.args) > 1 else "None"
             return out
     return None
+
+
+def path_implies(path_atoms, base, formula):
+    """Do the branch facts of a path imply ``formula``?  ``base`` lists canonical atom texts; every valuation of them that is
+    consistent with the path's atoms (compound atoms such as the negation of a conjunction are evaluated; atoms that
+    mention anything else are ignored) must satisfy ``formula(valuation dict)``."""
+    import itertools
+
+    conds = []
+    for t, pol in path_atoms:
+        if t.startswith("<"):
+            continue
+        if t in base:
+            conds.append((None, t, pol))
+            continue
+        try:
+            e = ast.parse(t, mode="eval").body
+        except SyntaxError:
+            continue
+        conds.append((e, t, pol))
+    any_consistent = False
+    for vals in itertools.product((False, True), repeat=len(base)):
+        env = dict(zip(base, vals))
+        ok = True
+        for e, t, pol in conds:
+            try:
+                v = env[t] if e is None else _tt_eval(e, env)
+            except _Unknown:
+                continue  # talks about something else
+            if v != pol:
+                ok = False
+                break
+        if not ok:
+            continue
+        any_consistent = True
+        if not formula(env):
+            return False
+    return any_consistent
